@@ -131,12 +131,14 @@ pub fn c05_scenario(ch: &mut Chooser, thorough: bool) -> Exec {
     let steps = if thorough { 20 } else { 12 };
     // with a short simulation duration every later step reports "ran for duration"; the
     // clocks keep advancing all the same when the caller steps on
-    let limited = ch.flag("simulation_duration_of_4_ticks_and_keep_stepping");
+    let limited = ch.flag("simulation_duration_of_4_and_a_half_ticks_and_keep_stepping");
 
     let mut b = builder(tick);
     b.epoch(epoch);
     if limited {
-        b.simulation_duration(Duration::from_millis(4 * tick));
+        // four and a half ticks: the duration boundary falls inside a step, which is a full
+        // tick long like every other
+        b.simulation_duration(Duration::from_micros(4 * tick * 1000 + tick * 500));
     }
     if random_order {
         b.enable_random_order();
